@@ -58,6 +58,20 @@ func (m *Machine) envProcess(c *frame, prefix string, st *types.Struct, sv Struc
 			name = alt
 		}
 		key := m.envKey(prefix, name)
+		if pt, ok := f.Type().Underlying().(*types.Pointer); ok {
+			// a pointer to a struct is followed (a nil one is left alone here: the
+			// configurations modelled always allocate theirs)
+			if inner, ok := pt.Elem().Underlying().(*types.Struct); ok {
+				if pp, _ := sv[i].(*Value); pp != nil {
+					if isv, _ := (*pp).(Struct); isv != nil {
+						if e := m.envProcess(c, key, inner, isv); e != nil {
+							return e
+						}
+					}
+				}
+				continue
+			}
+		}
 		if inner, ok := f.Type().Underlying().(*types.Struct); ok {
 			ip := key
 			if f.Anonymous() {
@@ -130,5 +144,20 @@ func init() {
 			return e
 		}
 		return Iface{}
+	}
+}
+
+func init() {
+	// the host name is one fixed name; the system's random source yields fixed
+	// bytes (only the generated default cluster secret depends on it)
+	natives["os.Hostname"] = func(m *Machine, c *frame, fn *ssa.Function, a []Value) Value {
+		return Tuple{sym.Str("vrf-host"), Iface{}}
+	}
+	natives["crypto/rand.Read"] = func(m *Machine, c *frame, fn *ssa.Function, a []Value) Value {
+		b, _ := a[0].([]Value)
+		for i := range b {
+			b[i] = sym.BVConst(8, uint64(0x40+i%64))
+		}
+		return Tuple{sym.BVConst(64, uint64(len(b))), Iface{}}
 	}
 }
